@@ -39,14 +39,14 @@ TRUSTED_BASE = ["Coq 8.16.1 kernel (coqc), vm_compute only",
 ASSUMPTIONS = ["a process crash keeps exactly the effect of the system calls that completed (each write atomic and durable, no reordering)",
                "write/lseek/read never fail and never transfer fewer bytes than asked",
                "sequence numbers and control values below 2^31"]
-RULE = ("quick: 200 random store histories of <= 6 operations (message put over sequence numbers 1..4 with payloads of 1..12 "
+RULE = ("quick: 120 random store histories of <= 6 operations (message put over sequence numbers 1..4 with payloads of 1..12 "
         "distinct bytes, control put, get, close+reopen; 3 of 4 control-first) x EVERY crash point k = 0..total number of "
         "write/lseek calls; thorough: ALL histories of <= 4 operations over {put 1,2,3 x 2 payload sizes, control put, reopen} x "
         "every crash point.  After the crash: both files compared byte-wise with the model's disk; reopen; control get, last, get "
         "of every sequence number; two further stores (aimed at the in-flight sequence number and its neighbour); the same reads "
         "again.  non-trivial = a crash strictly inside an operation, or at least two completed stores; distinct = distinct case lines")
 
-NWORKERS = 8
+NWORKERS = 4
 
 
 def build(tier):
@@ -190,7 +190,7 @@ def gen_cases(rng, tier):
                         pre.append(("O",))
                 all_points(rng, pre, 3, cs)
         return cs
-    for n in range(200):
+    for n in range(120):
         ln = rng.randrange(1, 7)
         pre = []
         if n % 4 != 0:
